@@ -1334,3 +1334,44 @@ def oracle_primary(line, out):
             if l > 0 and rr < n - 1 and all(h[k] == mx for k in range(l, rr + 1)):
                 return f"the global maximum (lag {tops[0]}) is not among the reported peaks at lags {got}"
     return None
+
+
+def oracle_calls(line, out):
+    """C20 on the finders' loops: every reported call is self-consistent (Length = reference gap - query gap of two
+    flanking aligned labels of THIS alignment, insertion iff negative, |Length| between the finder's threshold and
+    100000), and (segment finder) every breakage place with a following pair whose gap difference is in range is reported"""
+    op, kv = kv_of(line)
+    if out.startswith("ERR"):
+        return None      # label numbers outside the maps / a breakage place at the last pair: outside "self-consistent call"
+    R, Q = ints(kv.get("R", "")), ints(kv.get("Q", ""))
+    pairs = [tuple(int(x) for x in t.split(":")) for t in kv.get("PAIRS", "").split(",") if t]
+    lo = 100 if kv["variant"] == "seg" else 2000
+    got = []
+    for e in [t for t in out.split(";") if t]:
+        f = e.split(":")
+        got.append({"ins": f[0] == "1", "chrom": int(f[1]), "rs": int(f[2]), "re": int(f[3]), "qid": f[4], "qs": int(f[5]), "qe": int(f[6]),
+                    "len": frac(f[7]), "count": int(f[8])})
+    for c in got:
+        d = abs(c["rs"] - c["re"]) - abs(c["qs"] - c["qe"])
+        if c["len"] != d:
+            return f"Length {c['len']} is not the reference gap minus the query gap {d}"
+        if c["ins"] != (d < 0):
+            return f"type insertion={c['ins']} but Length {d}"
+        if not (lo < abs(d) < 100000):
+            return f"call with Length {d} outside ({lo}, 100000)"
+        if c["chrom"] != int(kv["chrom"]) or c["qid"] != kv["qid"]:
+            return "call names another chromosome / query"
+        if c["rs"] not in R or c["re"] not in R or c["qs"] not in Q or c["qe"] not in Q:
+            return "call coordinates are not label coordinates of the maps"
+    if kv["variant"] == "seg":
+        want = 0
+        for i in ints(kv.get("BP", "")):
+            if 0 <= i and i + 1 < len(pairs):
+                (r1, q1), (r2, q2) = pairs[i], pairs[i + 1]
+                if all(1 <= x <= len(R) for x in (r1, r2)) and all(1 <= x <= len(Q) for x in (q1, q2)):
+                    d = abs(R[r1 - 1] - R[r2 - 1]) - abs(Q[q1 - 1] - Q[q2 - 1])
+                    if lo < abs(d) < 100000:
+                        want += 1
+        if all(0 <= i for i in ints(kv.get("BP", ""))) and len(got) < want:
+            return f"{want} breakage places have a gap difference in range, {len(got)} calls reported"
+    return None
